@@ -171,13 +171,20 @@ func cmdRun(args []string) int {
 				params[kv[0]] = n
 			}
 		}
+		selfTests := 2
+		if *tier == "thorough" {
+			selfTests = 4
+		}
+		if *noReplay {
+			selfTests = 0
+		}
 		pre := hs.Preempt[0]
 		if *tier == "thorough" {
 			pre = hs.Preempt[1]
 		}
 		cfg := &Config{MaxSteps: 50_000_000, MaxCallDepth: 400, MaxAlloc: 1 << 16, MaxDecisions: 4000, SplitLimit: 300,
 			Trace: *trace, QueryTimeoutMs: 20000, Workers: nw, Params: params, InitPkgs: []string{pkgPath},
-			ExploreSched: hs.Sched, Preempt: pre, MaxViolations: 24, Solver: SolverKind(*solverKind), Verbose: *verbose}
+			ExploreSched: hs.Sched, Preempt: pre, MaxViolations: 24, SelfTests: selfTests, Solver: SolverKind(*solverKind), Verbose: *verbose}
 		cfg.Summaries = map[string]bool{}
 		for _, sname := range hs.Summarise {
 			cfg.Summaries[repoModule+"/"+sname] = true
@@ -243,6 +250,9 @@ func cmdRun(args []string) int {
 			if !(exit == 1 && code == 2) {
 				exit = code
 			}
+		}
+		if sc := rep.selfTest(hs, ex, hr, vd, *repo, knownIDs); sc > exit && exit != 1 && !*noReplay {
+			exit = sc
 		}
 		if exit != 1 && (len(ex.inconclusive) > 0 || ex.budgetExceeded != "" || ex.pathsByStatus[PathInconclusive] > 0) {
 			exit = 2
